@@ -460,13 +460,13 @@ def analyse_vacuity(res, vac, r, extra_args=None):
 
 
 # ------------------------------------------------------------------------------------------------
-def run_witness(prop, only=None):
+def run_witness(prop, only=None, force_tier=None):
     """bounded witness search / replay of recorded histories against the REAL crate; never decides 'holds'"""
     import subprocess
     pref = only or prop.lower()
     t0 = time.time()
     try:
-        tier = sys.argv[sys.argv.index('--tier') + 1] if '--tier' in sys.argv[:-1] else os.environ.get('VERIF_TIER', 'quick')
+        tier = force_tier or (sys.argv[sys.argv.index('--tier') + 1] if '--tier' in sys.argv[:-1] else os.environ.get('VERIF_TIER', 'quick'))
         p = subprocess.run([os.path.join(VERIF, 'tool', 'witness.sh'), pref], capture_output=True, text=True, timeout=1500,
                            env=dict(os.environ, VERIF_TIER='thorough' if tier == 'thorough' else 'quick'))
     except subprocess.TimeoutExpired:
@@ -542,7 +542,7 @@ def main():
 
     if replay and json.load(open(replay)).get('witness'):
         want = json.load(open(replay))
-        w = run_witness(prop, only=want['witness'])
+        w = run_witness(prop, only=want['witness'], force_tier=want.get('tier'))   # a failing input found at thorough bounds needs those bounds again
         hit = [r for r in w['results'] if r['reproduced']]
         for r in w['results']:
             print('REPLAY %s %s %s' % ('REPRODUCED' if r['reproduced'] else 'NOT-REPRODUCED', r['name'], r['detail']))
@@ -617,7 +617,7 @@ def main():
     if new_w:
         os.makedirs(os.path.join(VERIF, 'replay'), exist_ok=True)
         rp = os.path.join(VERIF, 'replay', '%s-%d.json' % (prop, int(time.time())))
-        json.dump({'property': prop, 'kind': 'failing-input', 'witness': new_w[0]['name'], 'failing_input': new_w[0]['detail'],
+        json.dump({'property': prop, 'kind': 'failing-input', 'tier': tier, 'witness': new_w[0]['name'], 'failing_input': new_w[0]['detail'],
                    'note': 'concrete input executed on the real crate (witness/src); re-run: ./check %s --replay <this file>' % prop,
                    'failed_obligations': new_fail, 'undecided': undecided}, open(rp, 'w'), indent=1)
         for f in new_fail:
